@@ -5,7 +5,7 @@ import framework as fw
 
 CFGS = ["std64", "release", "w32", "nostd"]
 FAMS = {   # family -> (binary, definition monitor dir/module, generator, gen constants)
-    "C01": ("c01", "Trace_C01", "Gen_C01", {"Classes": "{0, 1, 2, 3, 4, 5, 24, 25, 49}", "K": 1}),
+    "C01": ("c01", "Trace_C01", "Gen_C01", {"Classes": "{0, 1, 2, 3, 4, 5, 24, 25, 49}", "BigClasses": "{}", "K": 1}),
     "C02": ("c02", "Trace_C02", "Gen_C02", {"DivClasses": "{0, 1, 2, 3, 4, 33}", "QuoClasses": "{0, 1, 2, 3, 34}", "K": 3}),
     "C09": ("c09", "Trace_C09", "Gen_C09", {"Classes": "{0, 1, 2, 3, 4, 5}", "K": 2}),
 }
